@@ -117,7 +117,7 @@ pub fn eval(c: &MCase) -> Eval {
     });
     let r = w.tx_instantiate(Which::Staking, &admin, &inst.to_string());
     if !r.ok {
-        viol.push(Violation { prop: "HARNESS", clause: "boot", step: 0, msg: r.err.clone() });
+        viol.push(Violation { stop: true, prop: "HARNESS", clause: "boot", step: 0, msg: r.err.clone() });
     }
     let path = c.path % 3;
     // legacy configuration layouts
@@ -190,7 +190,7 @@ pub fn eval(c: &MCase) -> Eval {
     if r.out_of_gas {
         ev.stats.fault("F9_abort_at_storage_access");
         if w.st.staking.map != before {
-            viol.push(Violation { prop: "C18", clause: "aborted_migration_changes_nothing", step: 1, msg: "storage differs after an aborted migration".into() });
+            viol.push(Violation { stop: true, prop: "C18", clause: "aborted_migration_changes_nothing", step: 1, msg: "storage differs after an aborted migration".into() });
         }
         // retry without the fault
         let r2 = w.tx_migrate(Which::Staking, &msg.to_string());
@@ -203,7 +203,7 @@ pub fn eval(c: &MCase) -> Eval {
         check_result(c, &r, &before, &w, gate_ok, layout_ok, args_ok, name, ver, &msg, &mut viol, &mut ev, send_fees, &ibc, &staker, np, pp);
     }
     for p in &w.panics {
-        viol.push(Violation { prop: "C16", clause: "panic", step: 1, msg: format!("{}::{} panicked: {} | input: {}", p.contract, p.entry, p.msg, p.input) });
+        viol.push(Violation { stop: true, prop: "C16", clause: "panic", step: 1, msg: format!("{}::{} panicked: {} | input: {}", p.contract, p.entry, p.msg, p.input) });
     }
     let mut h = Fnv::default();
     h.u64(c.path as u64);
@@ -231,17 +231,17 @@ fn check_result(c: &MCase, r: &TxResult, before: &BTreeMap<Vec<u8>, Vec<u8>>, w:
     let after = &w.st.staking.map;
     if !r.ok {
         if after != before {
-            viol.push(Violation { prop: "C18", clause: "refused_migration_changes_nothing", step: 1, msg: format!("refused migration {} from ({}, {}) changed storage", msg, name, ver) });
+            viol.push(Violation { stop: true, prop: "C18", clause: "refused_migration_changes_nothing", step: 1, msg: format!("refused migration {} from ({}, {}) changed storage", msg, name, ver) });
         }
         if gate_ok && layout_ok && args_ok && !r.panicked && !r.out_of_gas {
-            viol.push(Violation { prop: "C18", clause: "migration_from_exact_source_succeeds", step: 1, msg: format!("migration {} from ({}, {}) refused: {}", msg, name, ver, r.err) });
+            viol.push(Violation { stop: true, prop: "C18", clause: "migration_from_exact_source_succeeds", step: 1, msg: format!("migration {} from ({}, {}) refused: {}", msg, name, ver, r.err) });
         }
         ev.stats.probe("migration_refused");
         return;
     }
     ev.stats.tx_ok += 1;
     if !gate_ok {
-        viol.push(Violation { prop: "C18", clause: "version_gate", step: 1, msg: format!("migration {} succeeded from stored contract ({:?}, {:?})", msg, name, ver) });
+        viol.push(Violation { stop: true, prop: "C18", clause: "version_gate", step: 1, msg: format!("migration {} succeeded from stored contract ({:?}, {:?})", msg, name, ver) });
         return;
     }
     if !layout_ok {
@@ -250,7 +250,7 @@ fn check_result(c: &MCase, r: &TxResult, before: &BTreeMap<Vec<u8>, Vec<u8>>, w:
     let j = |m: &BTreeMap<Vec<u8>, Vec<u8>>, k: &[u8]| -> Value { m.get(k).and_then(|v| serde_json::from_slice(v).ok()).unwrap_or(Value::Null) };
     let ci = j(after, b"contract_info");
     if ci["version"].as_str() != Some(staking::contract::CONTRACT_VERSION) || ci["contract"].as_str() != Some("staking") {
-        viol.push(Violation { prop: "C18", clause: "records_new_version", step: 1, msg: format!("contract_info after migration: {}", ci) });
+        viol.push(Violation { stop: true, prop: "C18", clause: "records_new_version", step: 1, msg: format!("contract_info after migration: {}", ci) });
     }
     let infl = ns_key("inflight");
     let wait = ns_key("ibc_waiting_for_reply");
@@ -259,7 +259,7 @@ fn check_result(c: &MCase, r: &TxResult, before: &BTreeMap<Vec<u8>, Vec<u8>>, w:
     for k in before.keys().chain(after.keys()) {
         let owned = k == b"contract_info" || (path < 2 && k == b"config") || (path == 2 && (k.starts_with(&infl) || k.starts_with(&wait)));
         if !owned && before.get(k) != after.get(k) {
-            viol.push(Violation { prop: "C18", clause: "other_data_untouched", step: 1, msg: format!("record {:?} changed", String::from_utf8_lossy(k)) });
+            viol.push(Violation { stop: true, prop: "C18", clause: "other_data_untouched", step: 1, msg: format!("record {:?} changed", String::from_utf8_lossy(k)) });
             break;
         }
     }
@@ -269,11 +269,11 @@ fn check_result(c: &MCase, r: &TxResult, before: &BTreeMap<Vec<u8>, Vec<u8>>, w:
         0 => {
             for f in ["native_token_denom", "liquid_stake_token_denom", "treasury_address", "monitors", "validators", "batch_period", "unbonding_period", "protocol_fee_config", "multisig_address_config", "minimum_liquid_stake_amount", "ibc_channel_id", "stopped", "oracle_address"] {
                 if old[f] != new[f] {
-                    viol.push(Violation { prop: "C18", clause: "old_path_field_by_field", step: 1, msg: format!("0.4.18->0.4.20 changed {}: {} -> {}", f, old[f], new[f]) });
+                    viol.push(Violation { stop: true, prop: "C18", clause: "old_path_field_by_field", step: 1, msg: format!("0.4.18->0.4.20 changed {}: {} -> {}", f, old[f], new[f]) });
                 }
             }
             if new["send_fees_to_treasury"] != msg["v0_4_18_to_v0_4_20"]["send_fees_to_treasury"] {
-                viol.push(Violation { prop: "C18", clause: "old_path_field_by_field", step: 1, msg: "send_fees_to_treasury not taken from the message".into() });
+                viol.push(Violation { stop: true, prop: "C18", clause: "old_path_field_by_field", step: 1, msg: "send_fees_to_treasury not taken from the message".into() });
             }
         }
         1 => {
@@ -299,7 +299,7 @@ fn check_result(c: &MCase, r: &TxResult, before: &BTreeMap<Vec<u8>, Vec<u8>>, w:
             ];
             for (n, o, f) in pairs {
                 if n != o {
-                    viol.push(Violation { prop: "C18", clause: "old_path_field_by_field", step: 1, msg: format!("0.4.20->1.0.0 field {}: new {} vs old {}", f, n, o) });
+                    viol.push(Violation { stop: true, prop: "C18", clause: "old_path_field_by_field", step: 1, msg: format!("0.4.20->1.0.0 field {}: new {} vs old {}", f, n, o) });
                 }
             }
         }
@@ -307,14 +307,14 @@ fn check_result(c: &MCase, r: &TxResult, before: &BTreeMap<Vec<u8>, Vec<u8>>, w:
             let kb: Vec<&Vec<u8>> = before.keys().filter(|k| k.starts_with(&infl) || k.starts_with(&wait)).collect();
             let ka: Vec<&Vec<u8>> = after.keys().filter(|k| k.starts_with(&infl) || k.starts_with(&wait)).collect();
             if ka != kb {
-                viol.push(Violation { prop: "C18", clause: "records_keep_their_keys", step: 1, msg: "set of transfer / pending-reply keys changed".into() });
+                viol.push(Violation { stop: true, prop: "C18", clause: "records_keep_their_keys", step: 1, msg: "set of transfer / pending-reply keys changed".into() });
             }
             for (seq, amt, st) in &c.packets {
                 let mut k = infl.clone();
                 k.extend(seq.to_be_bytes());
                 let n = j(after, &k);
                 if n["sequence"].as_u64() != Some(*seq) || n["amount"]["amount"].as_str() != Some(amt.as_str()) || n["amount"]["denom"].as_str() != Some(ibc) || n["receiver"].as_str() != Some(staker) || n["status"].as_str() != Some(STATUSES[*st as usize % 4]) {
-                    viol.push(Violation { prop: "C18", clause: "packet_record_preserved", step: 1, msg: format!("packet (seq {}, amount {}, status {}) migrated to {}", seq, amt, STATUSES[*st as usize % 4], n) });
+                    viol.push(Violation { stop: true, prop: "C18", clause: "packet_record_preserved", step: 1, msg: format!("packet (seq {}, amount {}, status {}) migrated to {}", seq, amt, STATUSES[*st as usize % 4], n) });
                 }
             }
             for (id, amt) in &c.replies {
@@ -322,7 +322,7 @@ fn check_result(c: &MCase, r: &TxResult, before: &BTreeMap<Vec<u8>, Vec<u8>>, w:
                 k.extend(id.to_be_bytes());
                 let n = j(after, &k);
                 if n["amount"]["amount"].as_str() != Some(amt.as_str()) || n["amount"]["denom"].as_str() != Some(ibc) || n["receiver"].as_str() != Some(staker) {
-                    viol.push(Violation { prop: "C18", clause: "pending_reply_preserved", step: 1, msg: format!("pending reply (id {}, amount {}) migrated to {}", id, amt, n) });
+                    viol.push(Violation { stop: true, prop: "C18", clause: "pending_reply_preserved", step: 1, msg: format!("pending reply (id {}, amount {}) migrated to {}", id, amt, n) });
                 }
             }
             let _ = u(&Value::Null);
